@@ -5,6 +5,7 @@ import (
 	"encoding/json"
 	"errors"
 	"fmt"
+	"golang.org/x/text/unicode/norm"
 	"math"
 	"reflect"
 	"sort"
@@ -202,7 +203,9 @@ func UnmarshalValue(span herrors.Span, self interface{}) (*Value, *VmInterrupt) 
 			if err != nil {
 				return nil, err
 			}
-			fields[key] = value
+			// text is kept in one normal form everywhere (see NewValueString): the names of members as well,
+			// `o.get(o.keys()[0])` has to find the member
+			fields[norm.NFC.String(key)] = value
 		}
 		return NewValueObject(fields), nil
 	case []interface{}:
